@@ -64,6 +64,14 @@ func concScenario(s *Stream, r *Rng, idx int) {
 	c := &SrvConf{Base: uint32(10)<<24 | uint32(idx%200)<<8, Plen: 24, SelfMAC: srvMAC, Lease: time.Hour, Router: nil}
 	c.SelfIP = U32IP(c.Base + 1)
 	c.DynFrom, c.DynTo = U32IP(c.Base+100), U32IP(c.Base+100+uint32(pool)-1)
+	c.Router, c.DNS = U32IP(c.Base+1), []net.IP{net.IPv4(8, 8, 8, 8)}
+	// two hosts have per-client overrides: concurrent handlers must not mix up each other's options
+	for i := 0; i < 2 && i < k; i++ {
+		mac := net.HardwareAddr{2, 0, byte(idx), 0, 0xc0, byte(i)}
+		c.Clients = append(c.Clients, ClientConf{Key: mac.String(), MAC: mac, Router: U32IP(c.Base + 2 + uint32(i)), DNS: []net.IP{net.IPv4(1, 1, 1, byte(1+i))}, Hostname: fmt.Sprintf("h%d", i)})
+	}
+	optMon := NewSrvMonitor(c, s, c.Line(0))
+	optMon.optProp = "C09"
 	envMu.Lock()
 	env, err := StartServer(c)
 	envMu.Unlock()
@@ -106,6 +114,9 @@ func concScenario(s *Stream, r *Rng, idx int) {
 				rp := ParseReply(f)
 				if rp == nil {
 					continue
+				}
+				if rp.Type == 2 || rp.Type == 5 {
+					optMon.checkOptions(rp, Req{Chaddr: rp.Chaddr, HasCid: false})
 				}
 				for _, h := range hosts {
 					if bytes.Equal(h.mac, rp.Chaddr) {
